@@ -54,8 +54,8 @@ def run(pid, title, clauses):
     ex2 = engine.explore('c06', 'path_tier', SMART, jobs=ck.jobs, deadline=time.time() + 600)
     cands += ck.absorb('smart presets choose the tier from dirty/distance/pre_release/post only', ex2, expect_tags=['tier0', 'tier1', 'tier2', 'tier3'])
     if pid == 'C01':
-        # CLI layer: OutputFormatter (prefix) and the check command, on the preset schemas and every sixth (thorough: every second) menu schema
-        cli = [dict(a, prefix_len=(None, 0, 1, 2)[i % 4]) for i, a in enumerate(args) if a.get('preset') or i % (6 if quick else 2) == 0]
+        # CLI layer: OutputFormatter (prefix) and the check command, on the preset schemas and every sixth (thorough: every third) menu schema
+        cli = [dict(a, prefix_len=(None, 0, 1, 2)[i % 4]) for i, a in enumerate(args) if a.get('preset') or i % (6 if quick else 3) == 0]
         ex3 = engine.explore('c06', 'path_cli', cli, jobs=ck.jobs, deadline=time.time() + (600 if quick else 3600))
         cands += ck.absorb('OutputFormatter::format_output = prefix ++ rendering (one line); run_check_command accepts it as normal', ex3,
                            bounds=dict(args=len(cli), prefix='absent or 0..2 characters over the alphabet'), expect_tags=['cli_prefix_exact', 'check_accepts_as_normal'])
